@@ -111,6 +111,9 @@ const WORD_POOL: &[&str] = &[
     "あ。", "い。う", "モー。", "a.b", "。）", "！と", "）。", "あ！", "。。", "𠮷。", "é.", "1.", "の。あ",
     "う？い", "…", "・・・", "あ・・・", "<br><br>", "い<br><br>", "。<br>", "？」", "」と",
     "あああああああああ。", "ああああああああああ。", "𠮷𠮷𠮷𠮷𠮷𠮷𠮷。", "𠮷𠮷𠮷𠮷𠮷𠮷𠮷𠮷。",
+    // words in 1- and 2-byte characters whose terminator lies more than 10 CHARACTERS but at most 30 BYTES after the word
+    // start: the look-back of the non-break check is 30 bytes, not 10 characters
+    "Surprise!Surprise!Show", "abcdefghijkl.m", "ééééééééééé.é", "wwwwwwwwwwww!", "abcdefghijklmnopqrstuvwxyzab.",
 ];
 const TERM_WORDS: &[&str] = &["。", "！", "?", ".", "．", "）", "」", "、", "♪"];
 
